@@ -204,6 +204,19 @@ let run mode (line : string) : string =
                                                | None -> "none" | Some r -> atom_of_bytes r) | _ -> failwith "b64dec")
   | "normalize" -> (match x with A h -> atom_of_bytes (normalize (bytes_of_atom h)) | _ -> failwith "normalize")
   | "sem" -> run_sem x
+  | "env_emit" -> atom_of_bytes (env_emit Fixed (val_of_sexp x))
+  | "env_emit_legacy" -> atom_of_bytes (env_emit Legacy (val_of_sexp x))
+  | "flags_emit" -> (match flags_emit (val_of_sexp x) with None -> "err" | Some o -> atom_of_bytes o)
+  | "exec_emit" -> (match exec_emit (val_of_sexp x) with None -> "err" | Some o -> atom_of_bytes o)
+  | "sh_words" -> (match x with A h -> (match sh_words (bytes_of_atom h) with
+        | Words ws -> to_string (L (List.map (fun w -> A (atom_of_bytes w)) ws))
+        | Expands _ -> "expands" | Unterminated -> "unterminated") | _ -> failwith "sh_words")
+  | "sh_env" -> (match x with A h -> (match sh_env (bytes_of_atom h) with
+        | None -> "none"
+        | Some l -> to_string (L (List.map (fun (k, v) -> L [A (atom_of_bytes k); A (atom_of_bytes v)]) l))) | _ -> failwith "sh_env")
+  | "sh_script" -> (match x with A h -> (match sh_script (bytes_of_atom h) with
+        | None -> "none"
+        | Some l -> to_string (L (List.map (fun ws -> L (List.map (fun w -> A (atom_of_bytes w)) ws)) l))) | _ -> failwith "sh_script")
   | "zdec" -> (match x with A s -> string_of_z (z_of_string s) | _ -> failwith "zdec")
   | _ -> failwith ("mode " ^ mode)
 
